@@ -8,6 +8,10 @@
 // A callback performs a sequence of up to 3 steps (reconfigure = stop/restart/re-point a live object, release, activate), so
 // "disable, then free" / "activate, then free" inside one callback are covered; the same reconfiguration calls are issued outside the
 // loop; the listener also has an error callback, reached through a scripted accept() failure.
+// Widened domain (half of the cases): a herd of 40 standalone deferred evbuffers that one op writes all at once (more deferred callbacks
+// in one loop iteration than the base queues directly, so the tail is parked for a later iteration), from a callback or outside the
+// loop, and callbacks that leave / restart the loop (event_base_loopbreak, event_base_loopcontinue); the herd is drained by complete
+// turns and freed before the base.  These choices are derived from the hash of the choices decoded so far (no new draws).
 // Oracle: see props/C10.json.  Preconditions respected (documented or what every caller relies on):
 //  * nothing bound to a base is touched after the base is freed (only caller-owned event storage and
 //    non-deferred evbuffers are released afterwards);
@@ -42,7 +46,7 @@ void __lsan_enable(void);
 }
 
 namespace {
-const int NEV = 8, NONCE = 4, NBEV = 5, NBUF = 2;
+const int NEV = 8, NONCE = 4, NBEV = 5, NBUF = 2, NHERD = 40;
 enum { ST_NONE = 0, ST_ALIVE, ST_FINALIZING, ST_DEAD };
 enum { K_EV = 0, K_BEV, K_BUF, K_LEV, K_ONCE, K_NONE };
 enum { EK_TIMER = 0, EK_PIPE_R, EK_PIPE_W, EK_SIGNAL };
@@ -62,8 +66,10 @@ struct BevS {
 struct BufS { struct evbuffer *b = nullptr; int st = ST_NONE; bool deferred = false; int cbs = 0, in_cb = 0; bool sched = false; /* a deferred run may be scheduled */ bool tolerate = false; };
 struct LevS { struct evconnlistener *l = nullptr; int st = ST_NONE; bool cof = false; int fd = -1; ino_t ino = 0; int cbs = 0, errcbs = 0, in_cb = 0; int clients[4]; int nclients = 0; bool closed_seen = false; };
 
+struct HerdS { struct evbuffer *b[NHERD]; int added[NHERD], seen[NHERD], runs[NHERD]; int kicks = 0; int st = ST_NONE; bool unclean = false; };
+
 struct World {
-  Src *s; struct event_base *base = nullptr; int npri = 1;
+  Src *s; HerdS herd; bool wide = false, closing = false, turn_broken = false, broke = false; int in_loop = 0; struct event_base *base = nullptr; int npri = 1;
   EvS ev[NEV]; OnceS once[NONCE]; BevS bev[NBEV]; BufS buf[NBUF]; LevS lev;
   int pipes[2][2] = {{-1, -1}, {-1, -1}};
   int acts_left = 14, depth = 0; int in_fin = 0;
@@ -355,6 +361,44 @@ bool release_buf(int i) {
   TR("evbuffer_free(buf%d)", i); u.st = ST_DEAD; evbuffer_free(u.b); u.b = nullptr; return true;
 }
 
+// ------------------------------------------------------------------ herd of deferred evbuffers + loop control (widened domain)
+// choices of the widened domain are a function of the choices decoded so far: no draw is added, saved inputs keep their decoding
+uint32_t derived(uint32_t salt, uint32_t k) {
+  uint64_t x = W->s->h ^ (0x9e3779b97f4a7c15ull * (salt + 1)); x ^= x >> 29; x *= 0xbf58476d1ce4e5b9ull; x ^= x >> 32; x *= 0x94d049bb133111ebull; x ^= x >> 31;
+  return (uint32_t)(x % k);
+}
+void herd_cb(struct evbuffer *b, const struct evbuffer_cb_info *info, void *arg) {
+  int i = (int)(intptr_t)arg; HerdS &h = W->herd;
+  TR("  herd%d cb +%zu", i, info->n_added);
+  if (h.unclean) return;
+  CHECK(h.st == ST_ALIVE, "C10/evbuffer-callback-after-free-unscheduled", "callback of herd evbuffer %d ran after evbuffer_free returned although every scheduled run had completed before the free", i);
+  CHECK(!W->base_freeing && !W->base_freed, "C10/callback-during-base-free", "callback of herd evbuffer %d ran from event_base_free", i);
+  CHECK(b == h.b[i], "C10/evbuffer-callback-wrong-object", "callback of herd evbuffer %d got another pointer", i);
+  h.seen[i] += (int)info->n_added; h.runs[i]++; W->total_cbs++;
+  CHECK(h.seen[i] <= h.added[i] && h.runs[i] <= h.kicks && info->n_added > 0, "C10/deferred-callback-invented", "herd evbuffer %d: %d deferred runs reporting %d bytes added for %d writes of 1 byte", i, h.runs[i], h.seen[i], h.added[i]);
+}
+void herd_kick(const char *where) {
+  HerdS &h = W->herd;
+  if (!W->wide || W->closing || W->base_freeing || W->base_freed || h.st == ST_DEAD) return;
+  if (h.st == ST_NONE) {
+    for (int i = 0; i < NHERD; i++) { h.b[i] = evbuffer_new(); if (!h.b[i]) abort(); h.added[i] = h.seen[i] = h.runs[i] = 0;
+      evbuffer_defer_callbacks(h.b[i], W->base); evbuffer_add_cb(h.b[i], herd_cb, (void *)(intptr_t)i); }
+    h.st = ST_ALIVE; TR("new herd of %d deferred evbuffers", NHERD);
+  }
+  TR("herd write x%d (%s)", NHERD, where);
+  h.kicks++;
+  for (int i = 0; i < NHERD; i++) { h.added[i]++; evbuffer_add(h.b[i], "h", 1); }
+  verif_class(W->in_loop ? "herd_written_in_loop" : "herd_written_outside_loop");
+}
+bool herd_pending() { HerdS &h = W->herd; if (h.st != ST_ALIVE) return false; for (int i = 0; i < NHERD; i++) if (h.seen[i] != h.added[i]) return true; return false; }
+// a callback leaves the running loop (what was parked for a later iteration stays parked until the loop is resumed) or restarts its scan
+void loop_control(bool kicked) {
+  if (!W->wide || W->closing || !W->in_loop) return;
+  uint32_t d = derived(2, kicked ? 2 : 12);
+  if (d == 0) { TR("event_base_loopbreak"); event_base_loopbreak(W->base); W->turn_broken = true; W->broke = true; verif_class(herd_pending() ? "loopbreak_with_herd_scheduled" : "loopbreak_in_cb"); }
+  else if (d == 1 && !kicked) { TR("event_base_loopcontinue"); event_base_loopcontinue(W->base); verif_class("loopcontinue_in_cb"); }
+}
+
 // ------------------------------------------------------------------ listener
 void lev_cb(struct evconnlistener *l, evutil_socket_t fd, struct sockaddr *, int, void *) {
   LevS &L = W->lev;
@@ -486,6 +530,8 @@ void cb_action(int kind, int idx) {
   if (W->in_fin || W->acts_left <= 0 || W->base_freeing) return;
   Src &s = *W->s;
   int rk = K_NONE, rj = -1, steps = 0;   // the object reconfigured earlier in this callback
+  bool kicked = false;
+  if (W->wide && !W->closing && derived(1, 5) == 0) { W->acts_left--; herd_kick("in a callback"); kicked = true; }
   for (int n = 0; n < 3 && W->acts_left > 0; n++) {
     int a = s.below(8); if (a < 4) break;
     W->acts_left--; W->depth++; steps++;
@@ -496,6 +542,7 @@ void cb_action(int kind, int idx) {
     W->depth--;
   }
   if (steps > 1) verif_class("multi_step_cb");
+  loop_control(kicked);
 }
 
 int64_t wait_hook(const struct sim_wait_info *wi, void *) {
@@ -508,15 +555,18 @@ int64_t wait_hook(const struct sim_wait_info *wi, void *) {
 bool fully_released(int i) { BevS &v = W->bev[i]; if (!v.released) return false; return v.over < 0 || fully_released(v.over); }
 
 void turn(int flags) {
-  W->turn_waits = 0; W->turn_capped = false;
+  W->turn_waits = 0; W->turn_capped = false; W->turn_broken = false; W->broke = false;
   bool immediate_pending[NONCE]; for (int k = 0; k < NONCE; k++) immediate_pending[k] = W->once[k].st == 1 && W->once[k].immediate;
   TR("turn flags=%d", flags);
-  int r = event_base_loop(W->base, flags);
-  TR("turn -> %d capped=%d", r, W->turn_capped);
+  W->in_loop++; int r = event_base_loop(W->base, flags); W->in_loop--;
+  TR("turn -> %d capped=%d left-by-loopbreak=%d", r, W->turn_capped, W->turn_broken);
   CHECK(r >= 0, "C10/loop-error", "event_base_loop=%d", r);
   lev_check_finalized("after the loop turn in which it was freed");
-  if (W->turn_capped || flags != EVLOOP_NONBLOCK) { W->defer_risk = true; return; }
+  if (W->turn_capped || W->turn_broken || flags != EVLOOP_NONBLOCK) { W->defer_risk = true; return; }
   W->defer_risk = false;
+  // ... and every deferred evbuffer callback that was scheduled, however many there were (nothing stays parked)
+  if (W->herd.st == ST_ALIVE) for (int k = 0; k < NHERD; k++) CHECK(W->herd.seen[k] == W->herd.added[k], "C10/deferred-callback-not-run-by-loop",
+    "herd evbuffer %d: %d bytes added, its deferred callback reported %d by the end of a complete loop turn", k, W->herd.added[k], W->herd.seen[k]);
   // a complete non-blocking turn runs every callback that was active, finalizers included
   for (int k = 0; k < NEV; k++) CHECK(W->ev[k].st != ST_FINALIZING, "C10/finalizer-not-run-by-loop", "finalizer of event %d still pending after a complete loop turn", k);
   for (int k = 0; k < NONCE; k++) if (immediate_pending[k]) CHECK(W->once[k].runs == 1, "C10/once-not-run", "immediate event_base_once callback %d did not run in a complete loop turn", k);
@@ -571,11 +621,13 @@ extern "C" int LLVMFuzzerTestOneInput(const uint8_t *data, size_t size) {
   if (!w.base) abort();
   evutil_weakrand_seed_(&w.base->weakrand_seed, 1);   // poll/select start index: not a function of the pid
   w.npri = 1 + s.below(3); event_base_priority_init(w.base, w.npri);
-  TR("base %s npri=%d teardown-mode=%d", event_base_get_method(w.base), w.npri, tmode);
+  w.wide = derived(3, 2) == 0;   // (salt chosen so that the saved known-*/regress-* replays fall into the other half and keep their exact meaning)
+  TR("base %s npri=%d teardown-mode=%d widened=%d", event_base_get_method(w.base), w.npri, tmode, w.wide);
 
   for (int step = 0; step < 40; step++) {
     int op = s.below(20);
     if (op == 0) break;
+    if (w.wide && derived(4, w.broke ? 3 : 20) == 0) herd_kick("outside the loop");
     switch (op) {
       case 1: case 2: { int i = s.below(NEV); do_ev_new(i, s); do_ev_add(i, s); break; }
       case 3: activate_ev(s.below(NEV), s); break;
@@ -610,6 +662,15 @@ extern "C" int LLVMFuzzerTestOneInput(const uint8_t *data, size_t size) {
   for (int j = 0; j < NBUF; j++) if (w.buf[j].st == ST_ALIVE && w.buf[j].deferred) {
     for (int t = 0; t < 3 && !release(K_BUF, j, 0, K_NONE, -1); t++) turn(EVLOOP_NONBLOCK);
     if (w.buf[j].st == ST_ALIVE) { TR("evbuffer_free(buf%d) (known finding tolerated)", j); w.buf[j].tolerate = true; w.buf[j].st = ST_DEAD; evbuffer_free(w.buf[j].b); w.buf[j].b = nullptr; } }
+  // the herd: drained by complete turns (no callback writes it or leaves the loop any more), then freed with no run scheduled
+  w.closing = true;
+  if (w.herd.st == ST_ALIVE) {
+    for (int t = 0; t < 4 && herd_pending(); t++) turn(EVLOOP_NONBLOCK);
+    if (herd_pending()) { w.herd.unclean = true; verif_class("herd_freed_with_runs_scheduled"); }   // (every turn hit the harness's wait cap: no claim)
+    TR("evbuffer_free x%d (herd)%s", NHERD, w.herd.unclean ? " (runs still scheduled: tolerated)" : "");
+    w.herd.st = ST_DEAD; for (int i = 0; i < NHERD; i++) { evbuffer_free(w.herd.b[i]); w.herd.b[i] = nullptr; }
+    verif_class("herd_released");
+  }
   bool bev_pending = false; for (auto &v : w.bev) if (v.st == ST_ALIVE) bev_pending = true;
   if ((tmode == 1 && bev_pending) || s.flag()) { turn(EVLOOP_NONBLOCK); if (w.turn_capped && tmode == 1) { tmode = 0; w.nofin = false; } }
   bool tolerate_leak = false;
@@ -658,7 +719,7 @@ extern "C" int LLVMFuzzerTestOneInput(const uint8_t *data, size_t size) {
   for (auto &p : w.pipes) if (p[0] >= 0) { close(p[0]); close(p[1]); }
 
   int64_t leaked = sim_mem_live_blocks - live0;
-  if (w.dirty) { if (leaked > 0) { g_expected_leak += leaked; verif_class("nofinalize_left_memory"); } CHECK(leaked >= 0, "C10/ledger-negative", "%lld", (long long)leaked); }
+  if (w.dirty || w.herd.unclean) { if (leaked > 0) { g_expected_leak += leaked; verif_class("nofinalize_left_memory"); } CHECK(leaked >= 0, "C10/ledger-negative", "%lld", (long long)leaked); }
   else if (leaked > 0 && w.defer_risk && bev_pending) { g_expected_leak += leaked; if (!tolerate_leak) VERIF_FAIL(K_DEFER_LEAK, "%lld library allocation(s) outstanding after %s: a bufferevent was freed while its deferred callback was scheduled; the base cancelled that callback and with it the last reference", (long long)leaked, w.nofin ? "event_base_free_nofinalize" : "event_base_free"); }
   else CHECK(leaked == 0, "C10/library-memory-outstanding", "%lld library allocation(s) outstanding after %s (with %d event finalizers pending at that point)", (long long)leaked, w.nofin ? "event_base_free_nofinalize" : "event_base_free", pend_fin);
   FdTab fd1; fd_table(&fd1); int d = fd_table_diff(&fd0, &fd1);
